@@ -216,6 +216,42 @@ def generate(seed: int, tier: str = "quick") -> dict:
         later = [i for i in opens if i > main_bar]
         if later:
             program.append({"bar": later[0], "phase": "on_bar", "op": "deribit.buy", "m": "drb0", "a": gen_trade_args(rp, token, True, n_ins)})
+    rb = R.sub(seed, "second_desk")
+    if rb.random() < 0.2:
+        # a second option market on the same token (another desk / sub-account / data source) registered BEFORE the one under
+        # test: the same instrument names with a book of its own, and orders of its own right before some of drb0's orders.
+        # Nothing one desk looks up, fills or refuses may show in the other desk's book, cash or positions
+        import copy as _copy
+        from decimal import Decimal as _D
+
+        by = _copy.deepcopy(mw)
+        by["name"] = "drb_by"
+        f = _D(rb.choice(["1.03", "0.97", "1.11"]))
+        for h in by["hours"]:
+            for nm in sorted(h["rows"]):
+                row = h["rows"][nm]
+                row["mark"] = format((_D(row["mark"]) * f).quantize(_D("0.00000001")).normalize(), "f") if _D(row["mark"]) else row["mark"]
+                for side in ("asks", "bids"):
+                    row[side] = [[format((_D(px) * f).quantize(_D("0.0000001")).normalize(), "f"), sz] for px, sz in row[side]]
+        world["markets"].insert(0, by)
+        extra = [{"bar": -1, "phase": "initialize", "op": "deribit.deposit", "m": "drb_by", "a": {"amount": {"f": f"wallet:{token}", "x": "0.2"}}}]
+        for o in list(program):
+            if o["op"] in ("deribit.buy", "deribit.sell") and o["bar"] >= 0 and rb.random() < 0.5 and "i" in (o["a"].get("inst") or {}):
+                kind = rb.choice(["deribit.buy", "deribit.buy", "deribit.estimate_cost"])
+                a = {"inst": dict(o["a"]["inst"]), "amount": {"level": 0, "x": rb.choice(["0.3", "1"]), "else": "1"}}
+                if kind == "deribit.estimate_cost":
+                    a["side"] = "buy"
+                extra.append({"bar": o["bar"], "phase": o["phase"], "op": kind, "m": "drb_by", "a": a, "_before": id(o)})
+        # keep each of the second desk's orders right in front of the order it shadows
+        merged = []
+        by_target = {}
+        for e in extra[1:]:
+            by_target.setdefault(e.pop("_before"), []).append(e)
+        for o in program:
+            merged += by_target.get(id(o), [])
+            merged.append(o)
+        program = [extra[0]] + merged
+        faults.append({"kind": "second_market_of_the_same_kind_registered_first"})
     program.sort(key=lambda o: (o["bar"], PHASE_ORDER.index(o["phase"])))
     return {"property": ID, "seed": seed, "world": world, "program": program, "faults": faults}
 
